@@ -171,7 +171,29 @@ class BaseSession:
                  disable_version_checks=True, admins=['admin'])
         s.update(self.settings)
         self.berte = GF.make_berte(self.repo, self.host, **s)
+        if s.get('jira_account_url'):
+            self.install_jira()
         return self.berte
+
+    def install_jira(self):
+        """The ticket tracker of this history: issue key -> {type, fix versions} (`jira_set`
+        events change it between jobs); an unknown key is a 404."""
+        import types
+        import bert_e.workflow.gitwaterflow.jira as J
+        from jira.exceptions import JIRAError
+        if not hasattr(self, 'jira'):
+            self.jira = {}
+        sess = self
+
+        def JiraIssue(account_url, issue_id, email, token):
+            d = sess.jira.get(issue_id)
+            if d is None:
+                raise JIRAError(status_code=404, text='Issue Does Not Exist')
+            return types.SimpleNamespace(
+                key=issue_id, fields=types.SimpleNamespace(
+                    issuetype=types.SimpleNamespace(name=d['type']),
+                    fixVersions=[types.SimpleNamespace(name=v) for v in d['fix']]))
+        J.jira_api.JiraIssue = JiraIssue
 
     def boundary(self, what):
         """Between two remote-mutating operations of a job (each git push, each
@@ -198,8 +220,7 @@ class BaseSession:
         self.boundaries = []
         self.crash_at = crash_at
         try:
-            fn()
-            out = 'returned'
+            out = fn() or 'returned'
         except Crash:
             out = 'CRASHED'
         except ex.BertE_Exception as e:
@@ -257,6 +278,31 @@ class BaseSession:
             self.berte.process(QueuesJob(bert_e=self.berte, force_merge=force_merge))
         return self._run('eval_queues', fn, crash_at)
 
+    def serve(self, what, *args):
+        """The way the server does it: the job is put in the task queue and the worker loop's
+        process_task() takes it.  Outcome = the status the worker recorded for the job, or
+        WORKER-DIED if an exception escapes process_task (the worker thread would be gone)."""
+        from bert_e.job import PullRequestJob, QueuesJob, CommitJob
+
+        def fn():
+            if what == 'queues':
+                job = QueuesJob(bert_e=self.berte)
+            elif what == 'pr':
+                job = PullRequestJob(bert_e=self.berte, pull_request=self.host.get_pull_request(args[0]))
+            else:
+                job = CommitJob(bert_e=self.berte, commit=self.tip_sha(args[0]))
+            self.berte.put_job(job)
+            try:
+                self.berte.process_task()
+            except Crash:
+                raise
+            except Exception as e:
+                return 'WORKER-DIED:' + type(e).__name__
+            if 'current job' in self.berte.status or not job.done:
+                return 'WORKER-STATE:' + str(job.status)
+            return str(job.status)
+        return self._run('serve %s %s' % (what, ' '.join(map(str, args))), fn)
+
     def delete_queues(self, crash_at=None):
         from bert_e.jobs.delete_queues import delete_queues, DeleteQueuesJob
 
@@ -312,8 +358,10 @@ class BaseSession:
         recs = []
         for ev in script:
             kind, args = ev[0], ev[1:]
-            if kind in ('eval_pr', 'eval_commit', 'eval_queues', 'delete_queues', 'create_branch',
-                        'delete_branch', 'rebuild_queues', 'force_merge_queues'):
+            if kind == 'serve':
+                recs.append(self.serve(*args))
+            elif kind in ('eval_pr', 'eval_commit', 'eval_queues', 'delete_queues', 'create_branch',
+                          'delete_branch', 'rebuild_queues', 'force_merge_queues'):
                 if kind == 'eval_commit' and not self.has_ref(args[0]):
                     continue
                 recs.append(getattr(self, kind)(*args))
@@ -328,6 +376,13 @@ class BaseSession:
                 p.comments = [c for c in p.comments if not (c.author != ROBOT and c.text == args[1])]
             elif kind == 'decline':
                 self.decline(args[0])
+            elif kind == 'jira_set':            # the ticket is edited (None: deleted / never existed)
+                if not hasattr(self, 'jira'):
+                    self.jira = {}
+                if args[1] is None:
+                    self.jira.pop(args[0], None)
+                else:
+                    self.jira[args[0]] = dict(type=args[1], fix=list(args[2]))
             elif kind == 'approvals':           # reviewers approve / withdraw on the host
                 self.host.prs[args[0]].approvers = None if args[1] is None else list(args[1])
             elif kind == 'resolve':             # the author resolves the conflict on w/<target>/<src> by hand
@@ -535,6 +590,9 @@ class SymSession(BaseSession):
     def set_race(self, ref):
         self.repo.race_ref = ref
 
+    def set_fail_push(self, k):
+        self.repo.fail_push_at = k
+
     def third_party_tag_delete(self, tag):
         self.repo.remote_tags.pop(tag, None)
 
@@ -621,6 +679,12 @@ class RealSession(BaseSession):
         def cmd(rself, command, *args, **kw):
             if rself is sess.repo and command.startswith('git push'):
                 sess.boundary(command % args if args else command)
+                if getattr(sess, 'fail_push_at', None) is not None:
+                    sess.push_seen += 1
+                    if sess.push_seen == sess.fail_push_at:
+                        from bert_e.lib.simplecmd import CommandError
+                        raise CommandError('Command %s returned with code 128: fatal: the remote end hung up '
+                                           'unexpectedly' % command)
             if rself is sess.repo and command.startswith('git log') and sess.log_cut:
                 return ''       # the same cut as in the model (symgit.log_cut)
             if rself is sess.repo and command.startswith('git merge '):
@@ -801,6 +865,10 @@ class RealSession(BaseSession):
 
     def set_race(self, ref):
         self.race_ref = ref
+
+    def set_fail_push(self, k):
+        self.fail_push_at = k
+        self.push_seen = 0
 
     def third_party_tag_delete(self, tag):
         from symgit.realgit import git
